@@ -542,8 +542,8 @@ def _pure_simple(e: ast.AST) -> bool:
             return False
         if isinstance(x, ast.Call):
             f = x.func
-            if isinstance(f, ast.Name) and f.id in _PURE_CALLS:
-                continue
+            if isinstance(f, ast.Name) and (f.id in _PURE_CALLS or f.id in _BetaArgs.records):
+                continue          # a built-in query, or the construction of a plain record
             if isinstance(f, ast.Attribute) and (f.attr.startswith(('has_', 'is_', 'count')) or f.attr in (
                     'get', 'startswith', 'endswith', 'lower', 'upper', 'strip', 'keys', 'values', 'items')):
                 continue
@@ -600,6 +600,7 @@ def _own_continue(body) -> bool:
 
 # ---------------------------------------------------------------------------------------------------------------------
 class _BetaArgs(ast.NodeTransformer):
+    records: Dict[str, tuple] = {}
     """(lambda a, b: e)(x, y) -> e[a:=x, b:=y] ; t.__getitem__(k) -> t[k] ; `a if True else b` -> a ; `if False:` dropped
     (what substituting constant arguments leaves behind)"""
 
@@ -639,6 +640,22 @@ class _BetaArgs(ast.NodeTransformer):
             return body
         return n
 
+    def visit_Attribute(self, n):
+        n = self.generic_visit(n)
+        # Rec(a=e1, b=e2).a  is  e1   (records: the new NamedTuple / dataclass types of the module)
+        v = n.value
+        if isinstance(n.ctx, ast.Load) and isinstance(v, ast.Call) and isinstance(v.func, ast.Name) and \
+                v.func.id in _BetaArgs.records and not any(isinstance(a, ast.Starred) for a in v.args) and \
+                all(k.arg for k in v.keywords):
+            flds, dflt = _BetaArgs.records[v.func.id]
+            vals = dict(zip(flds, v.args))
+            vals.update({k.arg: k.value for k in v.keywords})
+            if n.attr in vals:
+                return ast.copy_location(vals[n.attr], n)
+            if n.attr in dflt:
+                return ast.copy_location(copy.deepcopy(dflt[n.attr]), n)
+        return n
+
     def visit_BoolOp(self, n):
         n = self.generic_visit(n)
         vals = []
@@ -659,6 +676,28 @@ class _BetaArgs(ast.NodeTransformer):
     def visit_Call(self, n):
         n = self.generic_visit(n)
         f = n.func
+        # next((v for k, v in ((k1, v1), (k2, v2)) if X == k), D)  is  v1 if X == k1 else v2 if X == k2 else D
+        if isinstance(f, ast.Name) and f.id == 'next' and 1 <= len(n.args) <= 2 and not n.keywords and \
+                isinstance(n.args[0], ast.GeneratorExp) and len(n.args[0].generators) == 1:
+            g = n.args[0].generators[0]
+            rows = g.iter.elts if isinstance(g.iter, (ast.Tuple, ast.List)) else None
+            if rows and len(g.ifs) == 1 and len(rows) <= 24 and len(n.args) == 2:
+                names = [t.id for t in g.target.elts] if isinstance(g.target, ast.Tuple) and all(
+                    isinstance(t, ast.Name) for t in g.target.elts) else [g.target.id] if isinstance(g.target, ast.Name) else None
+                if names and all((isinstance(r, (ast.Tuple, ast.List)) and len(r.elts) == len(names))
+                                 if isinstance(g.target, ast.Tuple) else True for r in rows):
+                    out = n.args[1]
+                    for r in reversed(rows):
+                        env = dict(zip(names, r.elts)) if isinstance(g.target, ast.Tuple) else {names[0]: r}
+                        test = _Rename({}, env).visit(copy.deepcopy(g.ifs[0]))
+                        val = _Rename({}, env).visit(copy.deepcopy(n.args[0].elt))
+                        out = ast.IfExp(test=test, body=val, orelse=out)
+                    return ast.copy_location(out, n)
+        # (f if c else g)(args)  is  f(args) if c else g(args)
+        if isinstance(f, ast.IfExp) and not any(isinstance(a, ast.Starred) for a in n.args):
+            mk = lambda fn_: fn_ if isinstance(fn_, ast.Constant) else \
+                ast.Call(func=fn_, args=copy.deepcopy(n.args), keywords=copy.deepcopy(n.keywords))
+            return ast.copy_location(self.visit(ast.IfExp(test=f.test, body=mk(f.body), orelse=mk(f.orelse))), n)
         # all(P(x) for x in (a, b, c))  is  P(a) and P(b) and P(c)   (any: or) -- same short-circuit order
         if isinstance(f, ast.Name) and f.id in ('all', 'any') and len(n.args) == 1 and not n.keywords and \
                 isinstance(n.args[0], (ast.GeneratorExp, ast.ListComp)) and len(n.args[0].generators) == 1:
@@ -1185,6 +1224,95 @@ def scalarise_records(fn: ast.FunctionDef, records) -> bool:
     return True
 
 
+def propagate_callable_locals(fn: ast.FunctionDef, helper_names) -> bool:
+    """`build = f if c else g` ... `build(x)`  ==>  `(f if c else g)(x)` for the calls that follow in the same block
+    before `build` is bound again (f, g: helper functions -- function values are pure, so reading them again is the same)"""
+    changed = [False]
+
+    def callable_value(v) -> bool:
+        if isinstance(v, ast.Name):
+            return v.id in helper_names
+        if isinstance(v, ast.IfExp):
+            return callable_value(v.body) and callable_value(v.orelse)
+        if isinstance(v, ast.Lambda):
+            return True
+        if isinstance(v, ast.Constant) and v.value is None:
+            return True
+        return False
+
+    def block(stmts):
+        for st in stmts:
+            for fld in ('body', 'orelse', 'finalbody'):
+                sub = getattr(st, fld, None)
+                if isinstance(sub, list) and sub and isinstance(sub[0], ast.stmt):
+                    block(sub)
+            for hd in getattr(st, 'handlers', []) or []:
+                block(hd.body)
+        for k, st in enumerate(stmts):
+            if isinstance(st, ast.Assign) and len(st.targets) == 1 and isinstance(st.targets[0], ast.Name) and \
+                    callable_value(st.value):
+                x, v = st.targets[0].id, st.value
+                free = {y.id for y in ast.walk(v) if isinstance(y, ast.Name)}
+                for later in stmts[k + 1:]:
+                    stores = {y.id for y in ast.walk(later) if isinstance(y, ast.Name) and isinstance(y.ctx, ast.Store)}
+
+                    class Sub(ast.NodeTransformer):
+                        def visit_Call(self, n):
+                            n = self.generic_visit(n)
+                            if isinstance(n.func, ast.Name) and n.func.id == x:
+                                changed[0] = True
+                                n.func = copy.deepcopy(v)
+                            return n
+                    Sub().visit(later)
+                    if x in stores or (free & stores):
+                        break
+    block(fn.body)
+    return changed[0]
+
+
+def propagate_generator_locals(fn: ast.FunctionDef, gen_names) -> bool:
+    """`items = gen_helper(a, b)` ... `for x in items:`  ==>  `for x in gen_helper(a, b):` -- a generator object does
+    nothing until it is iterated, so where it is created does not matter (arguments that are plain names / attributes
+    only, the local bound once and not re-bound in between)"""
+    changed = [False]
+    counts: Dict[str, int] = {}
+    for n in _own_nodes(fn):
+        if isinstance(n, ast.Name) and isinstance(n.ctx, ast.Store):
+            counts[n.id] = counts.get(n.id, 0) + 1
+
+    def block(stmts):
+        for st in stmts:
+            for fld in ('body', 'orelse', 'finalbody'):
+                sub = getattr(st, fld, None)
+                if isinstance(sub, list) and sub and isinstance(sub[0], ast.stmt):
+                    block(sub)
+        k = 0
+        while k < len(stmts):
+            st = stmts[k]
+            if isinstance(st, ast.Assign) and len(st.targets) == 1 and isinstance(st.targets[0], ast.Name) and \
+                    counts.get(st.targets[0].id) == 1 and isinstance(st.value, ast.Call) and \
+                    isinstance(st.value.func, ast.Name) and st.value.func.id in gen_names and \
+                    all(_pure_simple(a) for a in list(st.value.args) + [kw.value for kw in st.value.keywords]):
+                x, v = st.targets[0].id, st.value
+                free = {y.id for y in ast.walk(v) if isinstance(y, ast.Name)}
+                rest = stmts[k + 1:]
+                if not any(isinstance(y, ast.Name) and isinstance(y.ctx, ast.Store) and y.id in free
+                           for r in rest for y in ast.walk(r)):
+                    class Sub(ast.NodeTransformer):
+                        def visit_Name(self, n):
+                            if n.id == x and isinstance(n.ctx, ast.Load):
+                                changed[0] = True
+                                return ast.copy_location(copy.deepcopy(v), n)
+                            return n
+                    for r in rest:
+                        Sub().visit(r)
+                    del stmts[k]
+                    continue
+            k += 1
+    block(fn.body)
+    return changed[0]
+
+
 def functional_to_loops(fn: ast.FunctionDef, helper_names=()) -> bool:
     """`x = reduce(lambda acc, v: E, IT, INIT)`  ==>  `x = INIT; for v in IT: x = E[acc := x]`
     `for v in chain(A, B, ..): BODY`           ==>  `for v in A: BODY; for v in B: BODY; ..`
@@ -1365,6 +1493,7 @@ def normalise_module(tree: ast.Module, modname: str) -> Dict[str, List[str]]:
     from .unroll import unroll_in_place
     inl = Inliner(helpers)
     inl.unique_methods = {k for k, v in method_count.items() if v == 1}
+    _BetaArgs.records = records
     # module-level names bound once to a record of a new record class: NAME.field is the constructor argument
     mod_records: Dict[str, Dict[str, ast.AST]] = {}
     top_counts: Dict[str, int] = {}
@@ -1424,6 +1553,10 @@ def normalise_module(tree: ast.Module, modname: str) -> Dict[str, List[str]]:
             fn, cls = funcs[q]
             try:
                 before = len(inl.inlined)
+                if propagate_callable_locals(fn, {h_.name for h_ in helpers.values()} | {h_.name for h_ in inl.helpers.values()}):
+                    any_change = True
+                if propagate_generator_locals(fn, {h_.name for h_ in helpers.values() if h_.is_gen and h_.cls is None}):
+                    any_change = True
                 if functional_to_loops(fn, {h_.name for h_ in helpers.values()}):
                     record.setdefault(q, []).append('reduce / chain written as loops')
                     any_change = True
